@@ -200,7 +200,10 @@ type c04Result struct {
 }
 
 // c04LayerQ runs one raw-queue episode (a pure function of the seed).
-func c04LayerQ(seed uint64, tier string) *c04Result {
+func c04LayerQ(seed uint64, tier string) *c04Result { return layerQ(seed, tier, false) }
+
+// layerQ: lenHeavy shifts the mix towards Len and Purge (C17 uses it for the bounds of Len).
+func layerQ(seed uint64, tier string, lenHeavy bool) *c04Result {
 	r := simrt.NewRand(seed)
 	res := &c04Result{Prio: r.Chance(50)}
 	pf := baseProfile()
@@ -228,6 +231,19 @@ func c04LayerQ(seed uint64, tier string) *c04Result {
 		var ops []qIn
 		for i := 0; i < per; i++ {
 			x := r.Intn(100)
+			if lenHeavy {
+				// 40 % enqueue, 25 % dequeue, 10 % purge, 25 % len
+				switch {
+				case x < 40:
+					x = 0
+				case x < 65:
+					x = 70
+				case x < 75:
+					x = 89
+				default:
+					x = 99
+				}
+			}
 			switch {
 			case x < 55 || (res.Seq && x < 62):
 				ops = append(ops, qIn{Op: qoEnq, V: next, Prio: pick(r, prioVals)})
